@@ -752,6 +752,16 @@ func TestKnownAndRegressions(t *testing.T) {
 	if err := checkPrograms([]Program{pf}, st); err != nil {
 		t.Fatalf("C12 violated (regression, faults): %v", err)
 	}
+	// a scenario the thorough tier reached: handler bindings come and go while transitions iterate them
+	pb := Program{Kind: "machine", Schema: sc, Reps: 15,
+		Table: gen.Table{Bindings: []gen.Binding{{Handlers: []gen.HandlerSpec{{Name: "S0State"}, {Name: "S1State"}, {Name: "S0Enter"}, {Name: "S1Enter"}}}}},
+		Goroutines: [][]string{
+			{"Add1", "Remove1", "Toggle1", "Add", "Remove", "Add1", "Remove1", "Toggle1", "Add1", "Remove1"},
+			{"HandlersBindMaps", "HandlersBind", "HandlersDetach", "HandlersBindMaps", "HandlersDetach", "HandlersDetach", "HandlersBind", "HandlersDetach"},
+			{"HandlersBind", "HandlersDetach", "HandlersBindMaps", "HandlersDetach", "Toggle1", "HandlersBind", "HandlersDetach"}}}
+	if err := checkPrograms([]Program{pb}, st); err != nil {
+		t.Fatalf("C12 violated (scenario, bind/detach during transitions): %v", err)
+	}
 }
 
 func TestReplay(t *testing.T) {
